@@ -179,7 +179,7 @@ class C05(Prop):
             "split across frames or reads.")
     assumptions = ("harness/utf8ref.py transcribes RFC 3629 section 4 correctly (self-tested against CPython's strict "
                    "decoder on a boundary table and on all 65536 two-byte strings)",)
-    examples = {"quick": 3000, "thorough": 60000}
+    examples = {"quick": 3000, "thorough": 150000}
 
     def selftest(self):
         assert len(prefixes()) == 17652
